@@ -179,6 +179,7 @@ class Binner(dict):
     def _hist_by_binsize_or_nbin(self, binsize, nbin, rev):
 
         if binsize is not None:
+            binsize = float(binsize)
             nbin = np.int64((self.dmax - self.dmin) / binsize) + 1
         elif nbin is not None:
             binsize = float(self.dmax - self.dmin) / nbin
@@ -312,13 +313,15 @@ class Binner(dict):
 
         dowhere = False
         if min is not None:
-            xmin = min
+            # plain floats: a numpy float32 scalar combined with a python
+            # number would make dmax - dmin single precision
+            xmin = float(min)
             dowhere = True
         else:
             xmin = self.x[s[0]]
 
         if max is not None:
-            xmax = max
+            xmax = float(max)
             dowhere = True
         else:
             xmax = self.x[s[-1]]
